@@ -1614,7 +1614,18 @@ struct MemWorld : World
     auto& pp = std::get<TP<int*>>(h->v);
     uint32_t off = (uint32_t)(haddr(*h) - S[(size_t)s].base());
     TP<int> q = nullptr;
-    Outcome o = attempt([&] { q = *pp; });
+    Outcome o = attempt([&] {
+      if (op.a[1] & 16) {
+        // the same cell read as a pointer to a function pointer: two levels of indirection that end in a function type -
+        // what comes out designates a cell (data), not a function
+        using PFn = void (**)();
+        auto as_pfn_cell = rlbox::sandbox_reinterpret_cast<PFn*>(pp);
+        rlbox::tainted<PFn, Sbx> pf = *as_pfn_cell;
+        q = rlbox::sandbox_reinterpret_cast<int*>(pf);
+        C->probe("pointer_to_function_pointer_loaded_from_sandbox_memory");
+      } else
+        q = *pp;
+    });
     C->ev("load -> %s", oname(o));
     if (o == OK) {
       check_load(s, off, (uintptr_t)q.UNSAFE_unverified(), "load");
